@@ -4,9 +4,15 @@ import glob, json, os
 rows = []
 for p in sorted(glob.glob("/verif/seeded/*/meta.json")):
     m = json.load(open(p))
-    need = m["what_it_needs_to_manifest"].split("\n")[0][:150].replace("|", "/")
+    need = m["what_it_needs_to_manifest"].split("\n")[0][:130].replace("|", "/")
     cr = m["check_run"]
-    rows.append("| %s | %s | %s | %s | %s |" % (m["seed_id"], m["property"], need, "caught" if cr["detected"] else "**missed**",
-                                               ", ".join(cr["violated_obligations"][:4]) + (" ..." if len(cr["violated_obligations"]) > 4 else "")))
-print("| seed | property | change (first line of its README) | result | obligations that reported it |\n|---|---|---|---|---|")
+    first = "caught" if cr["detected"] else "missed"
+    obl = ", ".join(cr["violated_obligations"][:3]) + (" ..." if len(cr["violated_obligations"]) > 3 else "")
+    after = ""
+    for k in ("after_strengthening_C01", "after_strengthening"):
+        if k in m:
+            a = m[k]
+            after += ("; " if after else "") + "%s: %s" % (a["check"], (a.get("violated_obligations") or a.get("what") or "")[:220].replace("|", "/"))
+    rows.append("| %s | %s | %s | %s | %s |" % (m["seed_id"], need, first, obl, after or ("-" if cr["detected"] else "**still missed**")))
+print("| seed | change (first line of its README) | first run of the property's quick check | obligations that reported it | after strengthening |\n|---|---|---|---|---|")
 print("\n".join(rows))
